@@ -20,7 +20,7 @@ META = {
         'value by the quote it opened with, does not end a tag at a `>` inside a quoted value, decodes XML entities before '
         'returning values, and reads the same three element kinds the loader uses; R5 scan, pre-check and parse precede the '
         'transaction (C06-R4); R6 dump() prints only constants, ElementTree serialisations and quoteattr()-quoted values, so '
-        'written files are well-formed whatever the stored values contain (shared with C02-R5).'),
+        'written files are well-formed whatever the stored values contain (shared with C02-R5). R7 dump() writes an element only under the versions the reader\'s tables accept it in (C02-R1/R3). R8 load() feeds the whole file, from its first byte, to the expat parser.'),
     'decides': ['one header check', 'reader rejects unknown / repeated elements', 'required attributes asserted', 'scan = load on lexicon headers',
                 'parse before write', 'writer output well-formed'],
     'not_decided': ['element placement (DTD content models)', 'attribute value domains'],
